@@ -13,6 +13,7 @@ ap.add_argument('--n', default='')
 ap.add_argument('--only', default='')
 ap.add_argument('--seed', default='')
 ap.add_argument('--src', default='')
+ap.add_argument('--offset', type=int, default=0)
 a = ap.parse_args()
 checks = a.checks.split(',') if a.checks else [a.prop]
 src = a.src or '/tmp/seedwork_%s' % a.prop
@@ -31,7 +32,7 @@ for d in sorted(glob.glob(src + '/change_*')):
   r = subprocess.run(cmd, capture_output=True, text=True)
   line = [l for l in r.stdout.splitlines() if l.startswith('RESULT ')]
   res = json.loads(line[0][7:]) if line else {'error': r.stdout[-2000:] + r.stderr[-2000:]}
-  out = os.path.join(VERIF, 'seeded', '%s-%s' % (a.prop, k))
+  out = os.path.join(VERIF, 'seeded', '%s-%s' % (a.prop, int(k) + a.offset))
   os.makedirs(out, exist_ok=True)
   for f in ('patch.diff', demo):
     shutil.copy(os.path.join(d, f), out)
